@@ -2,7 +2,7 @@
 from .core import Ob, need, floor
 from . import mirlib as M
 from . import thirlib as T
-from .p_modes import find_body, field_writers, GDE
+from .p_modes import find_body, field_writers, GDE, agg_sites
 
 HEAD05 = (91, 41, 62, 30, 48, 53, 29)   # [)>RS05GS
 HEAD06 = (91, 41, 62, 30, 48, 54, 29)   # [)>RS06GS
@@ -361,6 +361,39 @@ def fnc1(ctx):
         else:
             okw = False
     obs.append(Ob(r, "builder-field", okw and len(ws2) >= 2, "DataMatrixBuilder.fnc1_start is false by default and set only by with_fnc1_start", detail=det))
+    # every builder setter changes exactly its own field, from its own parameter (BUILDER-SETTERS)
+    FIELDS = ["encodation_types", "symbol_list", "use_macros", "fnc1_start"]
+    setters = {"with_encodation_types": "encodation_types", "with_symbol_list": "symbol_list", "with_macros": "use_macros", "with_fnc1_start": "fnc1_start"}
+    seen_setters = set()
+    for name, raw in f.mir.items():
+        cn = T.canon(name)
+        if not cn.startswith("DataMatrixBuilder::"):
+            continue
+        last = cn.split("::")[-1]
+        body = M.Body(raw)
+        for b, i, v, st in agg_sites(body, "DataMatrixBuilder"):
+            vals = {fld: body.expr_of_operand(op) for fld, op in zip(st["rv"]["fields"], st["rv"]["ops"])}
+            if last in setters:
+                seen_setters.add(last)
+                own = setters[last]
+                bad = []
+                for fld in FIELDS:
+                    e = vals.get(fld)
+                    if fld == own:
+                        uses_param = any(isinstance(x, tuple) and x[0] in ("arg", "var") and x[1] not in ("self",) for x in M.walk(e)) and not _has_field(e, fld)
+                        if not uses_param:
+                            bad.append("%s not taken from the parameter: %s" % (fld, M.show(e, 60)))
+                    else:
+                        if not (e is not None and e[0] == "field" and e[2] == fld and e[1][0] in ("arg", "var") and e[1][1] == "self"):
+                            bad.append("%s is not copied from self: %s" % (fld, M.show(e, 60) if e else None))
+                obs.append(Ob(r, "setter:" + last, not bad, "%s changes only `%s`, from its parameter; every other option is carried over unchanged" % (last, own), site=M.fmt_span(st["span"]), detail=bad))
+            elif last == "new":
+                e = vals
+                ok = e.get("use_macros", ("x",))[:2] == ("const", 1) and e.get("fnc1_start", ("x",))[:2] == ("const", 0) \
+                    and any(isinstance(x, tuple) and x[0] == "call" and T.canon(x[1]).endswith("EncodationType::all") for x in M.walk(e.get("encodation_types"))) \
+                    and any(isinstance(x, tuple) and x[0] == "call" and T.canon(x[1]).endswith("Default>::default") for x in M.walk(e.get("symbol_list")))
+                obs.append(Ob(r, "builder-defaults", ok, "DataMatrixBuilder::new(): all modes, default symbol list, macros on, no FNC1 start", site=M.fmt_span(st["span"])))
+    obs.append(Ob(r, "setters-found", seen_setters == set(setters), "all four builder setters analysed", detail=sorted(seen_setters)))
     gs = find_body(f, "DataMatrix::encode_gs1", r)
     c = gs.calls(lambda c, _t: T.canon(c).endswith("with_fnc1_start"))
     ok = len(c) == 1 and gs.expr_of_operand(c[0][1]["args"][1])[:2] == ("const", 1)
